@@ -17,14 +17,13 @@ ID = "C08"
 RULE = ("(a) every ranking of length <= 4 (thorough <= 5) over result prototypes {6 graded distance (or IoU) levels interleaving the "
         "threshold ladder, a wrong-heading correct result, GT-less, other-label} x ground-truth counts, evaluated at every threshold of "
         "the 6-step ladder (distance 0.25..50 / IoU 0.9..0.0) for both labels moving independently (component-wise order via "
-        "single-coordinate steps); (b) matcher output of every scene sub-list pair (<=2 x <=2, ordinary ground truth only) x 4 modes "
-        "x 3 policies along the ladder. Checked between consecutive ladder steps (transitivity gives all ordered pairs): TP set "
+        "single-coordinate steps); (b) matcher output of every scene sub-list pair (<=2 x <=2, ordinary ground truth only) x 3 policies along the ladder. Checked between consecutive ladder steps (transitivity gives all ordered pairs): TP set "
         "inclusion (identity), FN count non-increasing, AP/APH per label and mAP/mAPH non-decreasing, undefined stays undefined. "
         "state = (layer, mode, ranking/scene class, step at which something changes); non-trivial = some TP appears along the ladder")
 ASSUMPTIONS = [
     "ordinary (non false-positive-labelled) ground truth only, as the statement demands; tolerance 1e-12 on AP differences",
 ]
-LAD = {"CENTERDISTANCE": [0.25, 0.5, 1.0, 2.0, 4.0, 50.0], "PLANEDISTANCE": [0.25, 0.5, 1.0, 2.0, 4.0, 50.0],
+LAD = {"CENTERDISTANCE": [0.0, 0.1, 0.5, 1.0, 2.0, 4.0, 50.0], "PLANEDISTANCE": [0.0, 0.1, 0.5, 1.0, 2.0, 4.0, 50.0],
        "IOU2D": [0.9, 0.7, 0.5, 0.3, 0.1, 0.0], "IOU3D": [0.9, 0.7, 0.5, 0.3, 0.1, 0.0]}
 DIST_LEVELS = [0.1, 0.4, 0.8, 1.5, 3.0, 10.0]
 SYMS = ["d0", "d1", "d2", "d3", "d4", "d5", "h", "N", "I"]
@@ -40,7 +39,7 @@ def worker_init():
 
 def _proto(sym, rank, label="CAR"):
     k = (sym, rank, label)
-    if k not in _POOL:
+    if True:  # fresh objects for every case: results judged under several modes must not leak state between cases
         other = "PEDESTRIAN" if label == "CAR" else "CAR"
         x = 30.0 * rank
         e = G.mk3d(dict(x=x, y=2.0, yaw=0.3, label=label, score=round(0.97 - 0.05 * rank, 4), uuid="e%d" % rank, size=[2.0, 4.0, 1.5]))
@@ -53,27 +52,21 @@ def _proto(sym, rank, label="CAR"):
         else:
             d = DIST_LEVELS[int(sym[1])]
             g = G.mk3d(dict(x=x + d, y=2.0, yaw=0.3 + 0.05 * int(sym[1]), label=label, uuid="g%d" % rank, size=[2.0, 4.0, 1.5]))
-        _POOL[k] = DynamicObjectWithPerceptionResult(e, g)
-    return _POOL[k]
+        return DynamicObjectWithPerceptionResult(e, g)
 
 
 def units(tier, seed):
     u = []
-    for mode in ("CENTERDISTANCE", "IOU2D", "PLANEDISTANCE", "IOU3D"):
-        if tier == "quick":
-            lmax, syms, grid = (4, SYMS6, False) if mode == "CENTERDISTANCE" else (3, SYMS, False)
-        else:
-            lmax, syms, grid = (5, SYMS6, False) if mode == "CENTERDISTANCE" else (4, SYMS, False)
-        nch = 8 if tier == "quick" else 48
-        for k in range(nch):
-            u.append(dict(layer="a", mode=mode, L=lmax, syms=syms, grid=grid, chunk=[k, nch]))
-        if tier == "thorough":
-            for k in range(8):
-                u.append(dict(layer="a", mode=mode, L=3, syms=SYMS, grid=True, chunk=[k, 8]))
-    for mode in LAD:
-        for pol in (("DEFAULT", "ALLOW_ANY") if tier == "quick" else S.POLICIES):
-            for k in range(2):
-                u.append(dict(layer="b", mode=mode, policy=pol, grid=tier != "quick", nest=8 if tier == "quick" else 10, chunk=[k, 2]))
+    nch = 16 if tier == "quick" else 64
+    for k in range(nch):
+        u.append(dict(layer="a", L=3 if tier == "quick" else 4, syms=SYMS, grid=False, chunk=[k, nch]))
+        u.append(dict(layer="a", L=4 if tier == "quick" else 5, only_len=True, syms=SYMS6, grid=False, chunk=[k, nch]))
+    if tier == "thorough":
+        for k in range(16):
+            u.append(dict(layer="a", L=3, syms=SYMS, grid=True, chunk=[k, 16]))
+    for pol in (("DEFAULT", "ALLOW_ANY") if tier == "quick" else S.POLICIES):
+        for k in range(8):
+            u.append(dict(layer="b", policy=pol, grid=tier != "quick", nest=8 if tier == "quick" else 10, chunk=[k, 8]))
     return u
 
 
@@ -85,12 +78,12 @@ def run_unit(unit, acc):
     if unit["layer"] == "a":
         k, n = unit["chunk"]
         idx = 0
-        for L in range(0, unit["L"] + 1):
+        for L in ([unit["L"]] if unit.get("only_len") else range(0, unit["L"] + 1)):
             for seq in itertools.product(unit["syms"], repeat=L):
                 idx += 1
                 if idx % n != k:
                     continue
-                check_case(dict(layer="a", mode=unit["mode"], seq=list(seq), grid=unit["grid"]), acc)
+                check_case(dict(layer="a", seq=list(seq), grid=unit["grid"]), acc)
     else:
         est, gt = S.pools(_SEED[0])
         gt = [g for g in gt if g["label"] != "FP"]
@@ -102,8 +95,7 @@ def run_unit(unit, acc):
                 idx += 1
                 if idx % n != k:
                     continue
-                check_case(dict(layer="b", mode=unit["mode"], policy=unit["policy"], ests=[est[i] for i in es], gts=[gt[j] for j in gs],
-                                grid=unit["grid"]), acc)
+                check_case(dict(layer="b", policy=unit["policy"], ests=[est[i] for i in es], gts=[gt[j] for j in gs], grid=unit["grid"]), acc)
 
 
 def _evaluate(res_by_label, all_res, gts, gcount, labels, mode, thr):
@@ -179,9 +171,8 @@ def _walk(case, res_by_label, all_res, gts, gcount, labels, mode, lad, acc, bad)
 
 
 def check_case(case, acc):
+    """the SAME result objects are judged under all four matching modes (as MetricsScore does), each along its ladder."""
     acc.case()
-    mode = MatchingMode[case["mode"]]
-    lad = LAD[case["mode"]]
     labels = [CAR, PED]
 
     def bad(sig, msg):
@@ -192,21 +183,31 @@ def check_case(case, acc):
         car = [_proto(s, i, "CAR") for i, s in enumerate(seq)]
         ped = [_proto(s, i + 8, "PEDESTRIAN") for i, s in enumerate(reversed(seq))][:2]
         nT = sum(1 for s in seq if s[0] in "dh")
-        for gc in sorted({max(1, nT), nT + 1}):
-            ch, first, last = _walk(case, {CAR: car, PED: ped}, car + ped, None, {CAR: gc, PED: 2}, labels, mode, lad, acc, bad)
-        acc.state(("a", case["mode"], tuple(seq), ch > 0), nontrivial=ch > 0)
+        tot = 0
+        for mname in ("CENTERDISTANCE", "IOU2D", "PLANEDISTANCE", "IOU3D"):
+            mode, lad = MatchingMode[mname], LAD[mname]
+            for gc in (sorted({max(1, nT), nT + 1}) if mname == "CENTERDISTANCE" else [max(1, nT)]):
+                ch, first, last = _walk(case, {CAR: car, PED: ped}, car + ped, None, {CAR: gc, PED: 2}, labels, mode, lad, acc,
+                                        lambda s_, m_, mn=mname: bad(s_, m_ + " mode=" + mn))
+                tot += ch
+        acc.state(("a", tuple(seq), tot > 0), nontrivial=tot > 0)
         acc.outcome(("a", len(first["tp"]), len(last["tp"])))
-        if acc.cases % 1201 == 1:
+        if acc.cases % 401 == 1:
             acc.sample(case)
     else:
         ests = [G.mk3d(s) for s in case["ests"]]
         gts = [G.mk3d(s) for s in case["gts"]]
-        res = get_object_results(EvaluationTask.DETECTION, ests, gts, labels, MatchingLabelPolicy[case["policy"]], mode)
-        by = divide_objects(res, labels)
-        gcount = divide_objects_to_num(gts, labels)
-        ch, first, last = _walk(case, by, res, gts, gcount, labels, mode, lad, acc, bad)
-        acc.state(("b", case["mode"], case["policy"], tuple(first["tp"].__len__() for _ in (0,)), len(last["tp"]), first["fn"], last["fn"], ch > 0),
-                  nontrivial=ch > 0)
-        acc.outcome(("b", len(first["tp"]), len(last["tp"]), last["fn"]))
+        res = get_object_results(EvaluationTask.DETECTION, ests, gts, labels, MatchingLabelPolicy[case["policy"]])
+        tot = 0
+        summ = []
+        for mname in ("CENTERDISTANCE", "IOU2D", "PLANEDISTANCE", "IOU3D"):
+            mode, lad = MatchingMode[mname], LAD[mname]
+            by = divide_objects(res, labels)
+            gcount = divide_objects_to_num(gts, labels)
+            ch, first, last = _walk(case, by, res, gts, gcount, labels, mode, lad, acc, lambda s_, m_, mn=mname: bad(s_, m_ + " mode=" + mn))
+            tot += ch
+            summ.append((len(first["tp"]), len(last["tp"]), first["fn"], last["fn"]))
+        acc.state(("b", case["policy"], tuple(summ), tot > 0), nontrivial=tot > 0)
+        acc.outcome(("b", tuple(summ)))
         if acc.cases % 503 == 1:
             acc.sample(case)
